@@ -106,7 +106,9 @@ func usableAddr(ip net.IP) (netip.Addr, bool) {
 		return netip.Addr{}, false
 	}
 	addr = addr.Unmap()
-	if addr.IsLoopback() || isLocalIP(ip) {
+	// The unspecified address is no more a name server than loopback is:
+	// a datagram or connection to 0.0.0.0 / :: is delivered to this host.
+	if addr.IsLoopback() || addr.IsUnspecified() || isLocalIP(ip) {
 		return netip.Addr{}, false
 	}
 	return addr, true
